@@ -1,9 +1,11 @@
 #!/usr/bin/env python3
-"""Run checks against a seeded breaking change:  tools/seed_eval.py <seeded-id> [Cxx ...] [--tier quick] [--seeds 1,2]
+"""Run checks against a seeded breaking change:  tools/seed_eval.py <seeded-id> [Cxx ...] [--tier quick] [--seeds 1,2] [--scratch]
 
 Applies seeded/<id>/patch.diff to /repo (git apply), runs the named checks (default: the property the change
 breaks, from meta.json), prints which report a violation, and ALWAYS restores /repo (git checkout -- .).
-Results are appended to seeded/<id>/results.json."""
+Results are appended to seeded/<id>/results.json.
+With --scratch the patch is applied to a throw-away worktree of /repo's HEAD instead (the checks are pointed at it with
+VERIF_REPO and rebuild everything from it): for use while something else is reading /repo."""
 import json, os, subprocess, sys, time
 
 ROOT = os.path.dirname(os.path.dirname(os.path.abspath(__file__)))
@@ -18,6 +20,7 @@ def main():
     sid = args[0]
     tier = 'quick'
     seeds = ['1']
+    scratch = False
     checks = []
     i = 1
     while i < len(args):
@@ -25,17 +28,27 @@ def main():
             tier = args[i + 1]; i += 2
         elif args[i] == '--seeds':
             seeds = args[i + 1].split(','); i += 2
+        elif args[i] == '--scratch':
+            scratch = True; i += 1
         else:
             checks.append(args[i]); i += 1
     d = os.path.join(ROOT, 'seeded', sid)
     meta = json.load(open(os.path.join(d, 'meta.json')))
     if not checks:
         checks = [meta['property']]
-    st = subprocess.run(['git', '-C', REPO, 'status', '--porcelain', '--', 'src', 'include'], capture_output=True, text=True).stdout.strip()
+    target = REPO
+    if scratch:
+        target = os.path.join(os.environ.get('VERIF_SCRATCH', '/var/tmp'), 'lcdb-seed-eval-' + sid)
+        subprocess.run(['git', '-C', REPO, 'worktree', 'remove', '--force', target], capture_output=True)
+        r = subprocess.run(['git', '-C', REPO, 'worktree', 'add', '-f', '--detach', target, 'HEAD', '-q'], capture_output=True, text=True)
+        if r.returncode != 0:
+            print('cannot create scratch worktree:', r.stderr)
+            return 2
+    st = subprocess.run(['git', '-C', target, 'status', '--porcelain', '--', 'src', 'include'], capture_output=True, text=True).stdout.strip()
     if st:
-        print('refusing: /repo has local changes:\n' + st)
+        print('refusing: %s has local changes:\n' % target + st)
         return 2
-    r = subprocess.run(['git', '-C', REPO, 'apply', os.path.join(d, meta.get('patch', 'patch.diff'))], capture_output=True, text=True)
+    r = subprocess.run(['git', '-C', target, 'apply', os.path.join(d, meta.get('patch', 'patch.diff'))], capture_output=True, text=True)
     if r.returncode != 0:
         print('patch does not apply:', r.stderr)
         return 2
@@ -49,6 +62,8 @@ def main():
         for c in checks:
             for s in seeds:
                 env = dict(os.environ, VERIF_SEED=s)
+                if scratch:
+                    env['VERIF_REPO'] = target
                 t = time.time()
                 p = subprocess.run([os.path.join(ROOT, 'check'), c, '--tier', tier], capture_output=True, text=True, env=env, cwd=ROOT)
                 lines = [l for l in p.stdout.split('\n') if l.startswith(('VIOLATION', 'OK ', 'BUILD-ERROR', 'KNOWN-FINDING'))]
@@ -65,7 +80,11 @@ def main():
                 results.append(res)
                 print('%s seed=%s -> %s %s' % (c, s, 'DETECTED' if res['detected'] else ('exit %d' % p.returncode), what[:160]))
     finally:
-        subprocess.run(['git', '-C', REPO, 'checkout', '--', '.'])
+        if scratch:
+            subprocess.run(['git', '-C', REPO, 'worktree', 'remove', '--force', target], capture_output=True)
+            subprocess.run(['git', '-C', ROOT, 'checkout', '--', 'lean/LcdbModel/Generated'], capture_output=True)
+        else:
+            subprocess.run(['git', '-C', REPO, 'checkout', '--', '.'])
         for c, txt in saved.items():
             ep = os.path.join(ROOT, 'evidence', c + '.json')
             if txt is not None:
